@@ -218,6 +218,7 @@ def run(ctx):
             ctx.violation("f(Rp)==f(p) rotation", ctx.exc_witness(e, card=cards.short(card)), mechanism="density raises")
             continue
         good = conditioned(card, ps) & np.isfinite(f0)
+        f0_all = f0
         if not np.median(f0) > 1e-20:
             # amplitude vanishes identically (e.g. symmetrisation cancels it): only rounding noise left, nothing to judge
             ctx.count("degenerate_zero_density_cards")
@@ -236,7 +237,18 @@ def run(ctx):
             ctx.covered("res_2J", r["j2"])
         desc = lambda: {"card": cards.short(card), "data_opts": data_opts, "config": card["config"], "param_key": [ctx.seed, i]}
 
-        def judge(monitor, ps2, label, loose=False, mech=None):
+        def judge(monitor, ps2, label, loose=False, mech=None, only_conditioned=False):
+            f0 = f0_all
+            sel = good
+            if only_conditioned:
+                # (gamma = 7: events within 1e-4 of a threshold are not handed to the library at all - their angles are rounding noise there,
+                # and the finiteness contract on every density would judge them)
+                if not np.any(good):
+                    ctx.count("skipped_ill_conditioned_all")
+                    return
+                ps2 = [p_[good] for p_ in ps2]
+                f0 = f0_all[good]
+                sel = np.ones(int(good.sum()), dtype=bool)
             try:
                 f1, _ = cards.density(cfg, ps2)
             except Exception as e:
@@ -244,7 +256,6 @@ def run(ctx):
                 return
             tol = tolerance(f0, loose)
             d = np.abs(f1 - f0)
-            sel = good
             if not np.any(sel):
                 ctx.count("skipped_ill_conditioned_all")
                 return
@@ -253,7 +264,7 @@ def run(ctx):
                 ctx.dev(monitor + " (|df|/tol)", worst, 1.0)
             k = int(np.argmax(np.where(sel, d / tol, -1)))
             ctx.check(monitor, worst <= 1.0, lambda: dict(desc(), transform=label, event=k, f0=f0[k], f1=f1[k],
-                                                          momenta=[p[k] for p in ps], worst_ratio=worst),
+                                                          momenta=[(p[good] if only_conditioned else p)[k] for p in ps], worst_ratio=worst),
                       mechanism=("frame invariance" + kf) if (kf and not monitor.startswith("f(exchange")) else (mech or monitor) + kf)
 
         # rotation
@@ -271,7 +282,7 @@ def run(ctx):
         judge("f(Bp)==f(p) boost", [kin.boost(p, vt) for p in ps], {"boost": vt}, mech="f(Bp)==f(p) tiny boost")
         if i % 3 == 0 and not has_massless:
             vl = kin.random_velocity(rng, speeds=(0.99,))
-            judge("f(Bp)==f(p) boost", [kin.boost(p, vl) for p in ps], {"boost": vl}, loose=True, mech="f(Bp)==f(p) boost 0.99")
+            judge("f(Bp)==f(p) boost", [kin.boost(p, vl) for p in ps], {"boost": vl}, loose=True, mech="f(Bp)==f(p) boost 0.99", only_conditioned=True)
         # inversion
         all_strong = all(not o.get("p_break") and o.get("model") not in ("helicity_full", "helicity_full-bf") for o in meta["dec_opts"].values())
         for o in meta["dec_opts"].values():
